@@ -144,13 +144,13 @@ class TutteEmbedding(BaseParametrization):
             for i in range(1, n//4):
                 U[i] = 4*i/n
                 # V = 0
-            for i,v in enumerate(range(n//4+1, n//2)):
+            for i,v in enumerate(range(n//4+1, n//2), start=1):
                 U[v] = 1
                 V[v] = 4*i/n
-            for i,v in enumerate(range(n//2+1, (3*n)//4)):
+            for i,v in enumerate(range(n//2+1, (3*n)//4), start=1):
                 U[v] = 1-4*i/n
                 V[v] = 1
-            for i,v in enumerate(range((3*n)//4+1, n)):
+            for i,v in enumerate(range((3*n)//4+1, n), start=1):
                 # U = 0
                 V[v] = 1-4*i/n
         return U, V
